@@ -244,6 +244,9 @@ func runCli(m *Model, bin string, c cliCase) []Diff {
 			if target == "" {
 				t = twin
 			}
+			if strings.HasPrefix(target, "/") {
+				t = target // an absolute target is the same directory for the command line and for the library (verify only reads)
+			}
 			opts = append(opts, gtree.WithTargetDir(t))
 			if strict {
 				opts = append(opts, gtree.WithStrictVerify())
@@ -415,6 +418,22 @@ func runC16(ctx *Ctx) *Report {
 	}
 	// --file names the file as the OS resolves it: through a symbolic link to a directory and back up is another
 	// file than the lexically cleaned path
+	// verify against absolute target directories, the file-system root among them ("/" and "//" are directories, not "no
+	// target given"): what exists below the working directory must not count, what exists below the target must
+	for _, tgt := range []string{"/", "//", "/usr", "/usr/", "/usr//"} {
+		for _, strict := range []bool{false} {
+			_ = strict
+			inRoot, inUsr := "- usr\n  - bin\n", "- bin\n- lib\n"
+			doc := inRoot
+			if strings.HasPrefix(tgt, "/usr") {
+				doc = inUsr
+			}
+			cases = append(cases, cliCase{Kind: "cli", Sub: "verify", Args: []string{"--target-dir", tgt}, Doc: hxs(doc), Text: doc, Stdout: "pipe"})
+			only := "- only-below-the-working-directory\n  - x\n"
+			cases = append(cases, cliCase{Kind: "cli", Sub: "verify", Args: []string{"--target-dir", tgt}, Doc: hxs(only), Text: only, Stdout: "pipe",
+				Pre: []FSEntry{{"only-below-the-working-directory/x", "d"}}})
+		}
+	}
 	for _, sa := range [][]string{{"output"}, {"output", "--format", "json"}, {"mkdir", "--target-dir", "t"}, {"mkdir", "--dry-run"}, {"verify", "--target-dir", "t"}} {
 		pre := []FSEntry{{"real/sub/x", "d"}, {"link", "l:real/sub"}, {"real/doc.md", "f0"}, {"doc.md", "f0"}}
 		cases = append(cases, cliCase{Kind: "cli", Sub: sa[0], Args: append(append([]string{}, sa[1:]...), "--file", "link/../doc.md"), Doc: hxs("- inner\n  - a\n"), Stdout: "pipe", Pre: pre, FileAt: "real/doc.md", Decoy: "doc.md"})
